@@ -34,7 +34,7 @@ func UpdateCase(r *rand.Rand, name string, o UpdateOpts) *Case {
 	ctxD := decl(src, "Ctx", Struct(F("ID", Basic("string"))))
 	fields := map[string]vref.FieldSpec{}
 	var methLines, convLines []string
-	kinds := []string{"basic", "basic", "namedbasic", "struct", "slice", "map", "ptrbasic", "ptrstruct", "chan", "any", "identslice", "identptr", "ignore", "missing", "rename", "func", "basic2ptr", "funcfield", "computed", "mapfunc", "mapfunclist"}
+	kinds := []string{"basic", "basic", "namedbasic", "struct", "slice", "map", "ptrbasic", "ptrstruct", "chan", "any", "identslice", "identptr", "ignore", "missing", "rename", "func", "basic2ptr", "funcfield", "computed", "mapfunc", "mapfunclist", "mapfuncany", "namedslice", "namedmap"}
 	needSkip, needMissing := false, false
 	computed := false
 	funcSrc := ""
@@ -62,6 +62,13 @@ func UpdateCase(r *rand.Rand, name string, o UpdateOpts) *Case {
 		case "slice":
 			sS.Fields = append(sS.Fields, F(f, Slice(Basic(b))))
 			tS.Fields = append(tS.Fields, F(f, Slice(Named(decl(tgt, "TE", Basic(b))))))
+		case "namedslice":
+			// named slice types are converted by a generated method
+			sS.Fields = append(sS.Fields, F(f, Named(decl(src, "SL", Slice(Basic(b))))))
+			tS.Fields = append(tS.Fields, F(f, Named(decl(tgt, "TL", Slice(Basic(b))))))
+		case "namedmap":
+			sS.Fields = append(sS.Fields, F(f, Named(decl(src, "SM", Map(Basic("string"), Basic(b))))))
+			tS.Fields = append(tS.Fields, F(f, Named(decl(tgt, "TM", Map(Basic("string"), Basic(b))))))
 		case "map":
 			sS.Fields = append(sS.Fields, F(f, Map(Basic("string"), Basic(b))))
 			tS.Fields = append(tS.Fields, F(f, Map(Basic("string"), Basic(b))))
@@ -83,12 +90,16 @@ func UpdateCase(r *rand.Rand, name string, o UpdateOpts) *Case {
 			tS.Fields = append(tS.Fields, F(f, Basic("string")))
 			methLines = append(methLines, "map "+f+" | Make")
 			fields[f] = vref.FieldSpec{Func: "fn:Make", NoSource: true}
-		case "mapfunc", "mapfunclist":
+		case "mapfunc", "mapfunclist", "mapfuncany":
 			// a target field computed by a function FROM a source field: the zero check applies to the value handed to it
 			fn := "Conv" + f
 			if k == "mapfunc" {
 				sS.Fields = append(sS.Fields, F(f+"In", Basic("int")))
 				funcSrc += fmt.Sprintf("func %s(v int) string { return fmt.Sprintf(\"%s:%%d\", v) }\n\n", fn, fn)
+			} else if k == "mapfuncany" {
+				// the function takes an interface: the zero check still concerns the source FIELD (an int)
+				sS.Fields = append(sS.Fields, F(f+"In", Basic("int")))
+				funcSrc += fmt.Sprintf("func %s(v any) string { return fmt.Sprintf(\"%s:%%v\", v) }\n\n", fn, fn)
 			} else {
 				sS.Fields = append(sS.Fields, F(f+"In", Slice(Basic("int"))))
 				funcSrc += fmt.Sprintf("func %s(v []int) string { return fmt.Sprintf(\"%s:%%v\", v) }\n\n", fn, fn)
